@@ -39,6 +39,11 @@ def classify_reject(cfg, rej):
 
 def body(cfg, ctx, sources=False):
     rc = cfg
+    import json as _json
+    if 'siblings' not in cfg and len(_json.dumps(cfg, sort_keys=True)) % 3 == 0:
+        # deterministic in the case: every third configuration also has a (valid) sibling route with a middleware of its own
+        cfg = dict(cfg, siblings=[I.sibling_for(cfg)])
+        ctx.event('with-sibling-route')
     try:
         plan = I.predict(cfg)
         rej = None
